@@ -39,3 +39,11 @@ OBLIGATIONS.append(ob("c06.f.ph", "hf_ph", ["crypto_sign_ed25519ph_init", "crypt
     "Ed25519ph: the multi-part API signs / verifies the 64-byte SHA-512 pre-hash with the pre-hashed (dom2) flag; verify returns the detached verdict",
     src="harness/sign_ph.c", defs=["-DPART=0"], replayable=True, assumes=["SHA-512 and the detached sign / verify are logging stubs (their own obligations: c06.f.sign_detached, c06.f.verify_detached)"],
     cbmc=["--unwind", "66", "--unwinding-assertions", "--object-bits", "18"], bound="values: message length <= 65535"))
+
+for d_, t_ in ((-80, "quick"), (-64, "thorough"), (-1, "quick"), (0, "quick"), (1, "quick"), (63, "thorough"), (64, "quick"), (80, "quick")):
+    OBLIGATIONS.append(ob("c13.b.sign.delta_%d" % d_, "hb_sign_overlap", ["crypto_sign_ed25519"],
+        "crypto_sign_ed25519 with the message overlapping the output at sm - m = %d bytes: the message is moved first, the original bytes get signed" % d_,
+        src="harness/sign.c", props=("C13", "C06", "C12"), kind="B", tier=t_, defs=["-DVDELTA=(%d)" % d_, "-DVSIGN_OVERLAP=1"], replayable=False,
+        gi_pre=["--replace-calls", "crypto_sign_ed25519_detached:s_sign_detached"], cbmc=["--unwind", "90", "--unwinding-assertions", "--object-bits", "12"],
+        assumes=["crypto_sign_ed25519_detached replaced by a logging stub (its own obligation: c06.f.sign_detached)", "memmove over-approximated: first 64 bytes and one ghost byte exact"],
+        bound="message length <= 80 bytes, relative offset %d" % d_))
